@@ -245,6 +245,12 @@ def programs(tier, seed):
     for macro, nb in (("join_async", 1), ("try_join_async", 2)) if tier == "quick" else (("join_async", 1), ("try_join_async", 2), ("join_async", 2), ("try_join_async_spawn", 1)):
         i += 1
         ps.append(deep_async("p%04d" % i, macro, 12, nb))
+    # thin-wide program (both tiers): 24 + 2 branches x 2 actions - branch indices beyond 16 (two-digit, hex-width and
+    # modulo clashes between the per-branch names) at a cost the quick tier can afford
+    i += 1
+    p = wide("p%04d" % i, 24, 2, seed)
+    p.heavy = False
+    ps.append(p)
     return ps
 
 
@@ -254,7 +260,7 @@ def generate(tier, seed):
 
 META = dict(
     level="translation_validation",
-    rule="programs: one 12 x 12 (thorough also 24 x 24) wide program with block captures at textually colliding (branch, position) pairs and block fold operands; one 12-step program; every ordered pair "
+    rule="programs: one 12 x 12 (thorough also 24 x 24) and one thin 24 x 2 wide program with block captures at textually colliding (branch, position) pairs and block fold operands; one 12-step program; every ordered pair "
          "of the 12 macro names x {operand, block capture, handler} (quick: one sixth, seed-rotated) and seed-sampled depth-3 triples; two programs with user identifiers spelled like internal names. "
          "Each compared with its closed form for ALL symbolic scalars; packed 8 per query; disagreements_checked = programs discharged",
     functions_encoded=["name constructors (__v, __sr{n}, __r{n}, __j{n}, __ew{b}_{pos}_{op}, __h, __rs, __inspect, __tb, __spawn_tokio) as used by the expansions of all 12 names; self-contained block / async block per expansion"],
